@@ -773,6 +773,6 @@ theorem WFSeq.step {w : World} (h : WFSeq w) (op : Op) : WFSeq (w.step op).1 := 
         exact h.freshM m' hm''
   | tracer t => simp only []; exact h.shrinks (Shrinks.of_eq rfl rfl rfl rfl rfl)
   | killtracer t => simp only []; exact h.shrinks (Shrinks.of_eq rfl rfl rfl rfl rfl)
-  | setreporter r => simp only []; exact h.shrinks (Shrinks.of_eq rfl rfl rfl rfl rfl)
+  | setreporter r ok => simp only []; exact h.shrinks (Shrinks.of_eq rfl rfl rfl rfl rfl)
 
 end Tromp
